@@ -155,14 +155,16 @@ def gen_lit(r, lang, small_bias=False):
 CTX_WEIGHTS = {"Assign": 6, "Arg": 4, "Return": 4, "Default": 2, "Elts": 3, "Compare": 3, "Binop": 2, "Mul": 2, "Neg": 2,
                "Upper": 6, "UpperNeg": 3, "UpperAnn": 3, "UpperTuple": 3, "Range": 4, "Enumerate": 3, "StrRepeatL": 2,
                "StrRepeatR": 2, "DictKeys": 2, "TsEnum": 3, "RsStatic": 3, "Interp": 3, "Decorator": 2, "Nested": 2, "Match": 2,
-               "Kwarg": 2, "Index": 2, "Lambda": 2, "Macro": 3}
+               "Kwarg": 2, "Index": 2, "Lambda": 2, "Macro": 3, "TsField": 3, "RsEnum": 3}
+IGNORE_POOL = ["tests/**", "**/*_constants.py", "*.ts", "case.py", "case", "util/*.py", "**/helpers.py", "**/case.py", "src/*", "tests/",
+               "generated/**", "*/case.rs", "??se.py", "*.js", "legacy"]
 LANG_KEY = {"py": "python", "ts": "typescript", "js": "javascript", "rs": "rust"}
 
 
 def gen_site(r, lang, kind):
     ctxs = [(c, CTX_WEIGHTS[c]) for c in R.CTXS["ts" if lang == "js" else lang] if R.ctx_ok(lang, kind, c)]
     c = wchoice(r, ctxs)
-    upper = c in ("Upper", "UpperNeg", "UpperAnn", "UpperTuple", "RsStatic", "TsEnum")
+    upper = c in ("Upper", "UpperNeg", "UpperAnn", "UpperTuple", "RsStatic", "TsEnum") or (c == "TsField" and r.random() < 0.7)
     name = r.choice(UPPER_NAMES) if upper else r.choice(CALL_NAMES) if c in ("Arg", "Decorator", "Kwarg", "Macro") else r.choice(LOWER_NAMES)
     n = 1
     if c in R.MULTI:
@@ -171,13 +173,13 @@ def gen_site(r, lang, kind):
             n = r.choice([1, 1, 2])
     small = c in ("Range", "Enumerate")
     lits = [gen_numeric(r, lang) if c == "Match" else gen_lit(r, lang, small) for _ in range(n)]
-    return {"ctx": c, "name": name, "lits": lits, "line": 0}
+    return {"ctx": c, "name": name, "lits": lits, "line": 0, "dir": r.randrange(len(R.DIR_POOL)) if r.random() < 0.12 else None}
 
 
 def gen_file(r, lang):
     name = wchoice(r, NAMES[lang])
     kinds = {"py": [("Top", 4), ("Func", 5), ("Method", 2), ("Nested", 1), ("Class", 1)],
-             "ts": [("Top", 4), ("Func", 5), ("Method", 2), ("Nested", 1)],
+             "ts": [("Top", 4), ("Func", 5), ("Method", 2), ("Nested", 1), ("Class", 1)],
              "js": [("Top", 4), ("Func", 5), ("Method", 2), ("Nested", 1)],
              "rs": [("Top", 2), ("Func", 6), ("Method", 2), ("Nested", 1), ("Class", 1)]}[lang]
     scopes = []
@@ -252,7 +254,10 @@ def gen_configs(r, f):
                     if r.random() < 0.5:
                         sec["max_small"] = r.randint(1, 12)
                     langs[key] = sec
-        cfgs.append({"allowed": gen_allowed(r, vals), "max_small": None if r.random() < 0.35 else r.randint(1, 12), "langs": langs, "delta": None})
+        en = None if r.random() < 0.88 else (r.random() < 0.5)
+        ig = [] if r.random() < 0.85 else r.sample(IGNORE_POOL, r.choice([1, 1, 2, 3]))
+        cfgs.append({"allowed": gen_allowed(r, vals), "max_small": None if r.random() < 0.35 else r.randint(1, 12), "langs": langs,
+                     "enabled": en, "ignore": ig, "delta": None})
     base = list(cfgs)
     for bi, c in enumerate(base):                              # cfg + a, cfg - a on the list in effect
         level, eff = effective(c, f["lang"])
@@ -305,6 +310,10 @@ def impl_config(cfg) -> dict:
     sec = _section(cfg["allowed"], cfg["max_small"])
     for key, sub in cfg.get("langs", {}).items():
         sec[key] = _section(sub.get("allowed"), sub.get("max_small"))
+    if cfg.get("enabled") is not None:
+        sec["enabled"] = cfg["enabled"]
+    if cfg.get("ignore"):
+        sec["ignore"] = list(cfg["ignore"])
     return {"magic-numbers": sec} if sec else {}
 
 
@@ -340,7 +349,7 @@ def run_impl(case):
     for _ in range(20):
         ctxm = scratch_dir("tv-c02-")
         d = ctxm.__enter__()
-        if not any(mk in str(d) + "/" for mk in TS_MARKERS) and "constants" not in str(d) and "_codes" not in str(d):
+        if not any(mk in str(d) + "/" for mk in TS_MARKERS + IGNORE_POOL) and "constants" not in str(d) and "_codes" not in str(d):
             break
         ctxm.__exit__(None, None, None)
     try:
@@ -380,7 +389,9 @@ def coq_cfg(cfg, lang="py") -> str:
         return "None" if z is None else f"(Some {R.coq_z(z)})"
     sec = cfg.get("langs", {}).get(LANG_KEY[lang])
     ls = "None" if sec is None else f"(Some ({opt_list(sec.get('allowed'))}, {opt_z(sec.get('max_small'))}))"
-    return f"(mk_cfg {opt_list(cfg['allowed'])} {opt_z(cfg['max_small'])} {ls})"
+    en = "None" if cfg.get("enabled") is None else f"(Some {coq.coq_bool(cfg['enabled'])})"
+    ig = coq.coq_list([coq.coq_string(p) for p in cfg.get("ignore", [])])
+    return f"(mk_cfg {opt_list(cfg['allowed'])} {opt_z(cfg['max_small'])} {ls} {en} {ig})"
 
 
 def coq_rep(r) -> str:
@@ -397,7 +408,7 @@ def coq_case(case, impl) -> str:
         reps = [] if isinstance(r, dict) else [coq_rep(x) for x in r]
         runs.append(f"({coq_cfg(cfg, case['file']['lang'])}, {coq.coq_list(reps)})")
     f = R.coq_file(case["file"])
-    return (f"Eval vm_compute in (judge magic_actual {COQ_LANG[case['file']['lang']]} {f} {coq.coq_list(runs)}).\n"
+    return (f"Eval vm_compute in (judge magic_actual {COQ_LANG[case['file']['lang']]} {f} {R.coq_dirs(case['file'])} {coq.coq_list(runs)}).\n"
             f"Eval vm_compute in (lit_texts {f}).")
 
 
@@ -622,6 +633,8 @@ def run(tier: str, seed: int, replay: str | None = None) -> int:
             chk.dist("delta:" + ("none" if cfg["delta"] is None else cfg["delta"][1]))
             sec = cfg.get("langs", {}).get(LANG_KEY[f["lang"]])
             chk.dist("language-section:" + ("none" if sec is None else "+".join(sorted(sec)) or "empty"))
+            chk.dist("enabled:" + str(cfg.get("enabled")))
+            chk.dist("ignore-patterns:" + str(len(cfg.get("ignore", []))))
             if isinstance(r, dict):
                 chk.violation({"reason": "CLI run failed", "detail": r, "config": impl_config(cfg), **small})
                 continue
